@@ -46,6 +46,8 @@ DEVIATIONS = [
     ('rescan-below-after-closer-exhausted', {'rescan': True}),
 ]
 
+DISFAVOURED = ('rule3-on-current-length',)
+
 _R = None
 
 
@@ -77,17 +79,21 @@ def observe(t):
 
 def classify(t, observed):
     """Smallest set of named deviations of the reference model that reproduces `observed`."""
+    # Explanations that avoid the deviations listed in DISFAVOURED (fixed in the tree by now) are
+    # preferred: a set using one of them is only reported when no set without them reproduces
+    # the output.  Within each group the smallest set (then declaration order) wins.
     n = len(DEVIATIONS)
-    for size in range(1, n + 1):
-        for combo in itertools.combinations(range(n), size):
-            kw = {'push_inert': True}
-            for i in combo:
-                kw.update(DEVIATIONS[i][1])
-            try:
-                if SE.spec_html(t, **kw) == observed:
-                    return '+'.join(DEVIATIONS[i][0] for i in combo)
-            except Exception:  # noqa
-                pass
+    combos = [c for size in range(1, n + 1) for c in itertools.combinations(range(n), size)]
+    combos.sort(key=lambda c: (any(DEVIATIONS[i][0] in DISFAVOURED for i in c), len(c), c))
+    for combo in combos:
+        kw = {'push_inert': True}
+        for i in combo:
+            kw.update(DEVIATIONS[i][1])
+        try:
+            if SE.spec_html(t, **kw) == observed:
+                return '+'.join(DEVIATIONS[i][0] for i in combo)
+        except Exception:  # noqa
+            pass
     return 'unexplained'
 
 
